@@ -95,3 +95,25 @@ Definition initial (w : world) : Prop :=
 
 Theorem reach_Inv w ops : initial w -> Inv (market (run w ops)).
 Proof. intros [t Ht]. apply run_Inv. eapply Inv_init. exact Ht. Qed.
+
+(** The registry changes only through registry messages. *)
+Lemma try_step_registry w o w' out :
+  try_step w o = Ok (w', out) ->
+  registry w' = registry w \/
+  exists a m, o = RegExec a m /\ reg_execute (contract_info_of w) (height w) a m (registry w) = Ok (registry w').
+Proof.
+  unfold try_step. intros H. destruct o.
+  - left. step H. apply run_market_inv in H. destruct H as (s' & _ & Hd & _).
+    apply dispatch_static in Hd. destruct Hd as (_ & Hr & _). exact Hr.
+  - left. destruct (kind w token); try discriminate. step H. apply run_market_inv in H. destruct H as (s' & _ & Hd & _).
+    apply dispatch_static in Hd. destruct Hd as (_ & Hr & _). exact Hr.
+  - left. destruct (kind w coll); try discriminate. step H. apply run_market_inv in H. destruct H as (s' & _ & Hd & _).
+    apply dispatch_static in Hd. destruct Hd as (_ & Hr & _). exact Hr.
+  - left. steps H; reflexivity.
+  - left. steps H; reflexivity.
+  - left. steps H; reflexivity.
+  - right. step H. inv H. exists sender, m. split; [reflexivity | exact Hb].
+  - left. steps H; reflexivity.
+  - left. steps H; reflexivity.
+  - left. steps H; reflexivity.
+Qed.
